@@ -2,6 +2,7 @@
 `bbdriver`: executes protocol commands on the model and prints canonical answers.
 -/
 import BBModel
+import BBGen.Gen
 import Driver.Proto
 import Std.Data.HashMap
 
@@ -13,9 +14,53 @@ structure DState where
   est : Option Est := none
   /-- a missing exp-table entry was needed -/
   expMiss : Bool := false
+  /-- `np.exp` as a table argument ↦ value, for the generated functions (command GENEXP) -/
+  expF : List (Rat × Rat) := []
 
 def DState.X (d : DState) : ExpTab :=
   { E := fun n => (d.expTab.get? n).getD (-1), off := d.off }
+
+/-- `np.exp` for the generated code: table lookup, `-1` for a missing entry -/
+def DState.expf (d : DState) (x : Rat) : Rat :=
+  match d.expF.find? (fun p => p.1 == x) with
+  | some p => p.2
+  | none => -1
+
+def wOfName : String → Option W
+  | "u8" => some .u8 | "u16" => some .u16 | "u32" => some .u32 | "u64" => some .u64 | _ => none
+
+def wTag : W → String
+  | .u8 => "u8" | .u16 => "u16" | .u32 => "u32" | .u64 => "u64" | .big => "big"
+
+/-- PV literals of the line protocol: `i:-3  b:1  f:3/4  f:nan  u:u64:7  a:u8:1,2,3  ba:1,0  s:radius  none  dt:u8  dt:object` -/
+def parsePV (t : String) : Option PV :=
+  match t.splitOn ":" with
+  | ["none"] => some .pynone
+  | ["i", v] => v.toInt?.map PV.int
+  | ["b", v] => some (PV.bool (v == "1"))
+  | ["f", "nan"] => some (PV.flt none)
+  | ["f", v] => (parseRat v).map (fun r => PV.flt (some r))
+  | ["u", w, v] => do pure (PV.uns (← wOfName w) (← v.toNat?))
+  | ["a", w, v] => do pure (PV.arr (← wOfName w) (← parseNats "," v))
+  | ["ba", v] => (parseNats "," v).map (fun l => PV.barr (l.map (· != 0)))
+  | ["s", v] => some (PV.str v)
+  | ["dt", "object"] => some (PV.dtype none)
+  | ["dt", w] => (wOfName w).map (fun x => PV.dtype (some x))
+  | _ => none
+
+def showPV : PV → String
+  | .int i => s!"i:{i}"
+  | .bool b => if b then "b:1" else "b:0"
+  | .flt none => "f:nan"
+  | .flt (some r) => s!"f:{showRat r}"
+  | .uns w n => s!"u:{wTag w}:{n}"
+  | .arr w xs => s!"a:{wTag w}:{showNats "," xs}"
+  | .barr bs => s!"ba:{showNats "," (bs.map (fun b => if b then 1 else 0))}"
+  | .str v => s!"s:{v}"
+  | .dtype none => "dt:object"
+  | .dtype (some w) => s!"dt:{wTag w}"
+  | .pynone => "none"
+  | .err e => s!"err:{e}"
 
 def showErr : Option Err → String
   | none => "ok"
@@ -244,6 +289,25 @@ def handle (d : DState) (line : String) : DState × String :=
           let (i1, i2, s1, s2) := mostDissimilar rows
           (d, s!"{i1} {i2} {showRats s1} {showRats s2}")
         | none => bad
+    | "GENEXP" =>
+      -- GENEXP tab=x1num/x1den=y1num/y1den;...   (np.exp on the arguments the real call used)
+      match (splitList ";" (kvD args "tab" "-")).mapM (fun p =>
+          match p.splitOn "=" with
+          | [x, y] => do pure ((← parseRat x), (← parseRat y))
+          | _ => none) with
+      | some tab => ({ d with expF := tab }, "ok")
+      | none => bad
+    | "GEN" =>
+      -- GEN <function> <PV> <PV> ...  -> the generated function of that name on those values
+      match args with
+      | fn :: rest =>
+        match rest.mapM parsePV with
+        | some vs =>
+          match BBGen.dispatch d.expf fn vs with
+          | some out => (d, " ".intercalate (out.map showPV))
+          | none => (d, "err:no-such-generated-function")
+        | none => bad
+      | [] => bad
     | "ACCEPT" =>
       match (kv args "crit").bind Crit.ofName?, (kv args "tol").bind parseRat, (kv args "thr").bind parseRat,
             parseSummary args "old", parseSummary args "nom" with
